@@ -1794,12 +1794,21 @@ class CryptContext:
     #: secret used for dummy_verify()
     _dummy_secret = "too many secrets"
 
+    #: context keywords used for dummy_verify(), for default schemes that require
+    #: some (e.g. ``user`` for postgres_md5, oracle10, msdcc).
+    _dummy_context_kwds = dict(user="dummy user", realm="dummy realm")
+
+    def _get_dummy_context_kwds(self):
+        """those of the dummy context keywords which the default scheme takes"""
+        wanted = self._get_record(None, None).context_kwds
+        return {k: v for k, v in self._dummy_context_kwds.items() if k in wanted}
+
     @memoized_property
     def _dummy_hash(self):
         """
         precalculated hash for dummy_verify() to use
         """
-        return self.hash(self._dummy_secret)
+        return self.hash(self._dummy_secret, **self._get_dummy_context_kwds())
 
     def _reset_dummy_verify(self):
         """
@@ -1817,7 +1826,7 @@ class CryptContext:
 
         .. versionadded:: 1.7
         """
-        self.verify(self._dummy_secret, self._dummy_hash)
+        self.verify(self._dummy_secret, self._dummy_hash, **self._get_dummy_context_kwds())
         return False
 
     def is_enabled(self, hash):
